@@ -123,6 +123,12 @@ def classify(unit, meta, res):
         if ob is None and loc is not None and ('postcondition' in low or 'invariant' in low or 'assertion' in low or 'decreases' in low):
             ob = ob_in(loc['line_start'], loc['line_end'])
         f = fn_at(loc['line_start']) if loc else None
+        if f is None:
+            # the failed clause may sit in a trait declaration of the template; the function it failed for is where
+            # one of the other spans points ("at the end of the function body")
+            for s2 in spans:
+                f = fn_at(s2['line_start'])
+                if f is not None: break
         if ob is not None:
             failed.append({'ob': ob, 'props': obl[ob]['props'], 'fn': obl[ob].get('fn') or (f[2] if f else None), 'msg': msg, 'rendered': rendered, 'kind': 'clause'})
         elif f is not None:
@@ -163,7 +169,7 @@ def verify_unit(unit, tier):
     for (a, b, q, saf) in meta['fn_ranges']:
         if '::' in q and not q.split('::')[1].startswith(('impl ', 'fn ')) or True:
             pass
-    h = hashlib.sha256((text + verus_version() + tier + 'logic-v2').encode()).hexdigest()[:24]
+    h = hashlib.sha256((text + verus_version() + tier + 'logic-v3').encode()).hexdigest()[:24]
     os.makedirs(CACHE, exist_ok=True)
     cpath = os.path.join(CACHE, unit + '.' + h + '.json')
     if os.path.exists(cpath) and not os.environ.get('VERIF_NO_CACHE'):
@@ -456,7 +462,10 @@ def main():
         if not fm or f.get('kind') not in ('clause', 'safety'): continue
         fb0 = fn_base.get(fm['fn'])
         changed = (fb0.get('sha') if isinstance(fb0, dict) else fb0) not in (None, fm['sha256'])
-        if fm.get('rebound') or (fm.get('annotated_body') and changed):
+        # ... or the change introduced closures / iterator-style adapters, which Verus only understands with annotations
+        # the template cannot have: the proof may fail for that reason alone
+        newc = isinstance(fb0, dict) and changed and (fm.get('n_closures', 0) > (fb0.get('closures') or 0) or fm.get('n_adapters', 0) > (fb0.get('adapters') or 0))
+        if fm.get('rebound') or (fm.get('annotated_body') and changed) or newc:
             if not f.get('witness'):
                 try:
                     import replaytool, witness
@@ -466,7 +475,7 @@ def main():
                     pass
             if not f.get('witness'):
                 violations.remove(f)
-                undecided.append('lost anchor: the proof of %s no longer goes through after a change inside %s, whose proof rests on hand-written loop invariants / hints%s; no failing input was found, so it is not reported as a violation' % (f['full'], fm['fn'].split('::')[-1], ' (annotations re-bound to renamed locals)' if fm.get('rebound') else ''))
+                undecided.append('lost anchor: the proof of %s no longer goes through after a change inside %s, whose proof rests on hand-written loop invariants / hints%s%s; no failing input was found, so it is not reported as a violation' % (f['full'], fm['fn'].split('::')[-1], ' (annotations re-bound to renamed locals)' if fm.get('rebound') else '', ' or which now uses closures / adapters the verifier has no specification for' if newc else ''))
     wall = time.time() - t0
     rc = 0
     for (f, k) in known_hits:
@@ -521,6 +530,8 @@ def main():
                         w = witness.gen_framing(pid, fake) or witness.gen_sock(pid, fake)
                     if w is None and pid in ('C18', 'C12', 'C09'):
                         w = witness.gen_sock_faults(pid, fake)
+                    if w is None and pid in ('C18', 'C13'):
+                        w = witness.gen_sock_timeouts(pid, fake)
                     if w is None and pid in ('C11', 'C12'):
                         w = witness.gen_sock_correlation(pid, fake)
                     if w is None and pid in ('C15', 'C14'):
@@ -544,7 +555,7 @@ def main():
         b[pid] = {k: True for k in obligations_seen if k not in failed_set}
         json.dump(b, open(os.path.join(ROOT, 'specs', 'baseline_obligations.json'), 'w'), indent=1, sort_keys=True)
         fb = load_fn_baseline()
-        for q, fm in fn_meta.items(): fb[q] = {'sha': fm['sha256'], 'body': fm.get('body_sha')}
+        for q, fm in fn_meta.items(): fb[q] = {'sha': fm['sha256'], 'body': fm.get('body_sha'), 'closures': fm.get('n_closures', 0), 'adapters': fm.get('n_adapters', 0)}
         json.dump(fb, open(os.path.join(ROOT, 'specs', 'baseline_functions.json'), 'w'), indent=1, sort_keys=True)
     # ---- thorough tier: things that can only lower confidence in the evidence, never raise an alarm ----
     thorough = {}
@@ -609,6 +620,9 @@ def main():
                     w = witness.gen_sock_faults(pid, {'full': 'server/client'})
                     thorough['socket_faults'] = {'bounded': 'stream of 4 requests cut at frame boundaries +-1 / inside headers, corrupted magic after 1-3 complete requests, ten faulted connections in a row; a second connection observes', 'scenarios': witness.gen_sock_faults.last_count, 'mismatch': (w or {}).get('what')}
                     if w: undecided.append('socket fault twin disagrees with the real server although every obligation is discharged: %s' % w['what'][:300])
+                    w3 = witness.gen_sock_timeouts(pid, {'full': 'server/client'})
+                    thorough['socket_idle_timeouts'] = {'bounded': 'receive timeout 1 s; the client goes silent inside a header / a body / an oversized body / between requests; the connection must be closed 2.6 s later', 'scenarios': witness.gen_sock_timeouts.last_count, 'mismatch': (w3 or {}).get('what')}
+                    if w3: undecided.append('idle-timeout twin disagrees with the real server although every obligation is discharged: %s' % w3['what'][:300])
             except Exception as e:
                 thorough['socket_faults_error'] = repr(e)
         if pid == 'C05':
